@@ -81,6 +81,7 @@ class Engine(OpsMixin):
         self.var_bounds = {}
         self.ib_memo = {}
         self.ideal_of = {}
+        self.path_model_nondet = False
         self.keep = []
         self.defs = {}
         self.real_mode = False
@@ -440,7 +441,7 @@ class Engine(OpsMixin):
             if self.check(*cons) != z3.sat:
                 return
             model = self.cur_model()
-        self.violations.append(dict(site=site, known=None, inputs=self.extract_inputs(model),
+        self.violations.append(dict(site=site, known=None, model_nondet=self.path_model_nondet, inputs=self.extract_inputs(model),
                                     exc=type(exc).__name__ if exc else None,
                                     where=_exc_where(exc) if exc else None))
 
@@ -1593,7 +1594,8 @@ class Engine(OpsMixin):
     def format_value(self, x, spec):
         if isinstance(spec, LazyStr):
             spec = self.force_str(spec)
-        if not deep_sym(x) and not is_sym(spec):
+        from .models import SymDecimal
+        if not deep_sym(x) and not is_sym(spec) and not isinstance(x, SymDecimal):
             return format(x, spec)
         from .models import sym_format
         return sym_format(self, x, spec)
